@@ -12,7 +12,7 @@ EXPAND = {"e": ["-e"], "d": ["-d"], "v": ["-v"], "V": ["-V"], "h": ["-h"], "le":
           "en": ["-en"], "dn": ["-dn"], "vn": ["-vn"], "n": ["-n"],
           "iF": ["-i", "F.bin"], "iE": ["--input", "E.wenc"], "iMissing": ["-i", "missing.bin"], "iLong": ["-i", LONGDIR + "/f.bin"], "iLen122": ["-i", P122], "iLen123": ["-i", P123], "iNoArg": ["-i"], "iProc": ["-i", "/proc/version"],
           "iBadC": ["-i", "BadC.wenc"], "iBadH": ["-i", "BadH.wenc"], "iTam": ["-i", "Tam.wenc"], "iEmpty": ["-i", "Empty.bin"],
-          "oO": ["-o", "O.out"], "oFull": ["-o", "/dev/full"], "oBad": ["-o", "nodir/x.out"],
+          "oO": ["-o", "O.out"], "oFull": ["-o", "/dev/full"], "oLong": ["-o", "Q" * 300], "oBad": ["-o", "nodir/x.out"],
           "kK": ["-k", K], "kW": ["--key", W], "kShort": ["-k", K[:-1]], "kBadChar": ["-k", K[:20] + "!" + K[21:]],
           "kNoPad": ["-k", K[:22] + "AA"], "kOnePad": ["-k", K[:22] + "A="], "kLong": ["-k", K[:22] + "AAAA=="], "kHigh": ["-k", K[:5] + "\udcc1" + K[6:]], "kMidPad": ["-k", K[:10] + "=" + K[11:]], "kPadChar": ["-k", K[:22] + "=A"],
           "c0": ["--cmode", "0"], "c4": ["--cmode", "4"], "leAbbr": ["--enc"], "kAbbr": ["--ke", K], "cAbbr": ["--cmod", "3"], "cWrapNeg": ["--cmode", "-18446744073709551615"], "c2p32p1": ["--cmode", "4294967297"], "c2p64p1": ["--cmode", "18446744073709551617"], "cNeg": ["--cmode", "-1"], "cHuge": ["--cmode", "99999999999999999999"], "hHuge": ["--hmode", "4294967296"], "cEmpty": ["--cmode", ""], "h0": ["--hmode", "0"], "h2": ["--hmode", "2"], "hNeg": ["--hmode", "-1"],
